@@ -12,7 +12,7 @@ NAMES6 = ["a", "b", "c", "d", "e", "f"]
 LIMITS = [x * 1000 for x in [1000, 1000, 800, 1200, 1500, 700, 5000, 100]]
 
 META = {
-    "level": "model_checking",
+    "level": "exploration",
     "technique": "model-based generated operation histories (hypothesis) against an executable reference model; exhaustive enumeration of short histories in the thorough tier",
     "rule": ("generated operation histories (get of 1..3 URIs - up to 12 in the thorough tier - over a 6-resource "
              "alphabet with comment suffixes and validate/postprocess directives, mem:// and file:// schemes; remove; "
